@@ -371,6 +371,74 @@ def coerce_part(ctx, g):
                'undeclared attributes, values of the wrong kind; the input value is never modified (%d changed by coercion)' % (len(cases), changed), 'correspondence', not m)
 
 
+def schema_entities_part(ctx):
+    """EntityMap.UnmarshalJSONWithSchema (decode, coerce along the schema, validate) = the composition of Impl/EntityJson.v, Impl/Coerce.v and Impl/Conform.v"""
+    import schemagen
+    r = ctx.rng
+    quick = ctx.tier == 'quick'
+    raw = []
+    for si in range(40 if quick else 1000):
+        sch = schemagen.Schema(r)
+        text = sch.text()
+        evs = ['enumvals'] + [[S(n)] + [S(i) for i in ids] for n, ids in sorted(sch.enums.items())]
+        for _ in range(6 if quick else 10):
+            st = sch.store()
+            if not lib.has_4in6(sx.dump(st)):
+                raw.append((text, evs, st))
+    enc = [case('x%d' % i, 'ejsonenc', st, ['keys']) for i, (_, _, st) in enumerate(raw)]
+    go_e = lib.run_go(enc, 'ejsonenc-schema', ctx.workdir)
+    texts = sorted({t[0] for t in raw})
+    info = lib.run_go(['(case i%d schemainfo %s)' % (i, S(t)) for i, t in enumerate(texts)], 'schemainfo', ctx.workdir)
+    info_of = {t: info.get('i%d' % i, '(missing)') for i, t in enumerate(texts)}
+
+    def respell(t, top=True):
+        """the explicit escapes of attribute and tag values, each kept or replaced by the implicit spelling the schema allows"""
+        if isinstance(t, str) or not t:
+            return t
+        if t[0] == 'arr':
+            return ['arr'] + [respell(x, top) for x in t[1:]]
+        if t[0] == 'obj':
+            if len(t) == 2 and sx.unS(t[1][0]) == b'__entity' and r.random() < 0.5:
+                return t[1][1]
+            if len(t) == 2 and sx.unS(t[1][0]) == b'__extn' and r.random() < 0.6:
+                arg = [kv[1] for kv in t[1][1][1:] if sx.unS(kv[0]) == b'arg']
+                if arg:
+                    if r.random() < 0.06:
+                        return ['str', S(r.choice(['x', '', '1.2.3', '1.5', '1h', '2024-01-01']))]       # a literal of another type, or of none
+                    return arg[0]
+            return ['obj'] + [[kv[0], respell(kv[1], False)] for kv in t[1:]]
+        return t
+    cases = []
+    for i, (text, evs, st) in enumerate(raw):
+        res_ = go_e.get('x%d' % i, '')
+        inf = info_of[text]
+        if not res_.startswith('(tree ') or not inf.startswith('(info '):
+            continue
+        tree = sx.parse(res_)[1]
+        for k in range(2):
+            cases.append('(case es%d_%d ejsonschema %s %s %s %s)' % (i, k, S(text), inf, sx.dump(evs), sx.dump(respell(tree) if k else tree)))
+    go_c = lib.run_go(cases, 'ejsonschema', ctx.workdir, timeout_ms=30000)
+    mo_c = lib.run_model(cases, 'ejsonschema', ctx.workdir)
+    mism = unk = acc = 0
+    for c in cases:
+        cid = lib.case_id(c)
+        g_, m_ = lib.canon_str(go_c.get(cid, '(missing)')), lib.canon_str(mo_c.get(cid, '(missing)'))
+        if m_ == '(unmodelled)':
+            unk += 1
+            continue
+        acc += g_.startswith('(ok')
+        if g_ != m_:
+            if two_wrapping_members(c) and sorted(g_) == sorted(m_):
+                continue
+            mism += 1
+            if mism <= 6:
+                ctx.violation('EntityMap.UnmarshalJSONWithSchema: Go and the composed Coq models (EntityJson.dec_entity_map, Coerce.coerce_entity, Conform.check_entities) disagree: go=%s model=%s'
+                              % (g_[:400], m_[:400]), dict(kind='case', case=c, go=g_, model=m_))
+    ctx.extra['ejsonschema'] = dict(cases=len(cases), accepted=acc, unmodelled=unk)
+    ctx.oblige('correspondence: EntityMap.UnmarshalJSONWithSchema = decode ; coerce ; validate of the Coq models on %d entity-map documents over generated schemas, explicit and '
+               'mixed implicit spellings (%d accepted, %d outside the modelled domain)' % (len(cases), acc, unk), 'correspondence', mism == 0)
+
+
 def run(ctx):
     b = lib.standard_build(ctx)
     if not lib.require_builds(ctx, b):
@@ -449,6 +517,7 @@ def run(ctx):
     entity_part(ctx, g)
     request_part(ctx, g)
     coerce_part(ctx, g)
+    schema_entities_part(ctx)
     go = lib.run_go(cases, 'json', ctx.workdir)
     bad = 0
     for c in cases:
